@@ -420,6 +420,7 @@ def count_absorbed(body, self_path, crate=None):
     sequence/lookahead/restore_on_err/stack_push can clean up."""
     cnt = 0
     depth = [0]
+    blets = hirq.lets(body)
 
     def visit(n, shield, absorbed):
         nonlocal cnt
@@ -431,8 +432,12 @@ def count_absorbed(body, self_path, crate=None):
                 if absorbed and not shield:
                     cnt += 1
                 return
-            if p.startswith(PS + "::") and n["args"] and kind(n["args"][-1]) == "Closure":
-                clo = n["args"][-1]
+            last = peel(n["args"][-1]) if n["args"] else None
+            if last is not None and kind(last) == "Path" and last.get("res") == "local" and last["id"] in blets \
+                    and kind(peel(blets[last["id"]][0])) == "Closure":
+                last = peel(blets[last["id"]][0])      # `let inner = |state| ..; state.optional(inner)`
+            if p.startswith(PS + "::") and n["args"] and kind(last) == "Closure":
+                clo = last
                 visit(n["recv"], shield, absorbed)
                 if m in ("sequence", "lookahead", "restore_on_err"):
                     visit(clo["body"], True, absorbed)
